@@ -1,0 +1,131 @@
+//go:build verif
+// +build verif
+
+package zap
+
+import (
+	"bytes"
+	"fmt"
+)
+
+// VerifCoderTerm is one use of a chunked coder between two resets: the
+// documents (increasing) and, per document, the values added for it.
+type VerifCoderTerm struct {
+	ChunkSize uint64
+	Docs      []uint64
+	Vals      [][]uint64
+}
+
+// VerifIntCoderRun drives one chunkedIntCoder through the terms the way the
+// writers do (SetChunkSize, Add..., Close, writeAt, Reset) and returns, per
+// term and per chunk, what one reused chunkedIntDecoder reads back.
+func VerifIntCoderRun(firstChunkSize, maxDoc uint64, terms []VerifCoderTerm) (out [][][]uint64, err error) {
+	defer func() {
+		if x := recover(); x != nil {
+			err = fmt.Errorf("panic: %v", x)
+		}
+	}()
+	c := newChunkedIntCoder(firstChunkSize, maxDoc)
+	var dec *chunkedIntDecoder
+	for _, t := range terms {
+		c.SetChunkSize(t.ChunkSize, maxDoc)
+		for i, d := range t.Docs {
+			if err = c.Add(d, t.Vals[i]...); err != nil {
+				return nil, err
+			}
+		}
+		c.Close()
+		var buf bytes.Buffer
+		w := NewCountHashWriter(&buf)
+		if _, err = w.Write([]byte{0xEE}); err != nil { // offset 0 means "not encoded"
+			return nil, err
+		}
+		off, _, werr := c.writeAt(w)
+		if werr != nil {
+			return nil, werr
+		}
+		dec = newChunkedIntDecoder(buf.Bytes(), off, dec)
+		n := int(maxDoc/t.ChunkSize) + 1
+		chunks := make([][]uint64, n)
+		for ch := 0; ch < n; ch++ {
+			chunks[ch] = []uint64{}
+			if err = dec.loadChunk(ch); err != nil {
+				return nil, err
+			}
+			for dec.Len() > 0 {
+				v, rerr := dec.readUvarint()
+				if rerr != nil {
+					return nil, rerr
+				}
+				chunks[ch] = append(chunks[ch], v)
+			}
+		}
+		out = append(out, chunks)
+		dec.reset()
+		c.Reset()
+	}
+	return out, nil
+}
+
+// VerifContentCoderRun writes one field's doc values through a fresh
+// chunkedContentCoder (each value one single-byte term) and returns, for
+// every document 0..maxDoc, the terms a docValueReader finds.
+func VerifContentCoderRun(maxDoc uint64, progressive bool, t VerifCoderTerm) (perDoc [][]uint64, err error) {
+	defer func() {
+		if x := recover(); x != nil {
+			err = fmt.Errorf("panic: %v", x)
+		}
+	}()
+	var buf bytes.Buffer
+	w := NewCountHashWriter(&buf)
+	if _, err = w.Write([]byte{0xEE}); err != nil {
+		return nil, err
+	}
+	start := uint64(w.Count())
+	c := newChunkedContentCoder(t.ChunkSize, maxDoc, w, progressive)
+	for i, d := range t.Docs {
+		var terms []byte
+		for _, v := range t.Vals[i] {
+			terms = append(append(terms, byte(v)), termSeparator)
+		}
+		if err = c.Add(d, terms); err != nil {
+			return nil, err
+		}
+	}
+	if err = c.Close(); err != nil {
+		return nil, err
+	}
+	if !progressive {
+		start = uint64(w.Count())
+	}
+	if _, err = c.Write(); err != nil {
+		return nil, err
+	}
+	end := uint64(w.Count())
+	sb := &SegmentBase{mem: buf.Bytes()}
+	dvr, err := sb.loadFieldDocValueReader("f", start, end)
+	if err != nil {
+		return nil, err
+	}
+	for d := uint64(0); d <= maxDoc; d++ {
+		got := []uint64{}
+		if dvr != nil {
+			if ch := d / t.ChunkSize; dvr.curChunkNumber() != ch {
+				if err = dvr.loadDvChunk(ch, sb); err != nil {
+					return nil, err
+				}
+			}
+			if err = dvr.visitDocValues(d, func(field string, term []byte) {
+				if len(term) == 1 {
+					got = append(got, uint64(term[0]))
+				} else {
+					got = append(got, 1<<32)
+				}
+			}); err != nil {
+				return nil, err
+			}
+		}
+		perDoc = append(perDoc, got)
+	}
+	return perDoc, nil
+}
